@@ -98,6 +98,8 @@ type c11Op struct {
 	Revokes []c11Status `json:"revokes,omitempty"` // mix: entries to revoke concurrently (list + idx)
 	// SignFail: the injected Sign fails during this operation (key store outage after ResolveKey succeeded)
 	SignFail bool `json:"signfail,omitempty"`
+	// Down: the status list endpoints of these nodes cannot be reached during this operation
+	Down []int `json:"down,omitempty"`
 }
 
 // ---------- fast signer: HMAC over the canonical JSON without proof, key derived from the key id
@@ -194,6 +196,7 @@ type c11World struct {
 	hookIdx    string
 	hookResult string
 	signFail   bool
+	down       map[int]bool
 }
 
 var c11Bases = []string{"https://n0.example", "https://n1.example/iam"}
@@ -242,6 +245,9 @@ func (w *c11World) Do(req *http.Request) (*http.Response, error) {
 		return &http.Response{StatusCode: code, Body: io.NopCloser(bytes.NewReader(body)), Header: http.Header{}}, nil
 	}
 	if u, ok := w.urlIndex[s]; ok {
+		if w.down[u.Node] {
+			return nil, errors.New("verif: connection refused")
+		}
 		id, _ := did.ParseDID(u.Issuer)
 		cred, err := w.nodes[u.Node].cs.Credential(context.Background(), *id, u.Page)
 		if err != nil {
@@ -613,7 +619,11 @@ func (w *c11World) exec(op c11Op) (line string) {
 	}()
 	ctx := context.Background()
 	w.signFail = op.SignFail && (op.Op == "entry" || op.Op == "revoke" || op.Op == "serve")
-	defer func() { w.signFail = false }()
+	w.down = map[int]bool{}
+	for _, n := range op.Down {
+		w.down[n] = true
+	}
+	defer func() { w.signFail = false; w.down = nil }()
 	switch op.Op {
 	case "reset":
 		w.reset(op.Dids)
@@ -1069,6 +1079,28 @@ func (g *c11Gen) next() c11Op {
 			c11Op{Op: "serve", Node: e.list.Node, Issuer: e.list.Issuer, Page: e.list.Page})
 		g.nticks++
 		return c11Op{Op: "tick", Secs: []int{71, 72, 72, 72, 96}[r.Intn(5)]*900 + 60}
+	case k < 78 && k >= 75 && len(g.entries) > 0 && g.nticks <= 11:
+		// hostile sequence: a verifier node caches the list BEFORE the revocation; after the revocation its cache gets older
+		// than maxAgeExternal, so a verification refreshes it (revoked); every later verification — from the cache, with the
+		// issuer's endpoint down, after another refresh window with the endpoint still down — must answer revoked as well,
+		// and the stored row must hold the downloaded bits
+		e := g.entries[r.Intn(len(g.entries))]
+		l := e.list
+		other := 1 - l.Node
+		c := c11Cred{ID: "did:web:example.com:iam:alice#p" + strconv.Itoa(r.Intn(3)), IssuerDID: "did:web:example.com:iam:alice",
+			Statuses: []c11Status{{Type: StatusList2021EntryType, Purpose: "revocation", List: l, Idx: strconv.Itoa(e.idx)}}}
+		g.pending = append(g.pending,
+			c11Op{Op: "revoke", Node: l.Node, List: &l, Idx: strconv.Itoa(e.idx), Purpose: StatusPurposeRevocation},
+			c11Op{Op: "verify", Node: other, Cred: &c},
+			c11Op{Op: "tick", Secs: 960},
+			c11Op{Op: "verify", Node: other, Cred: &c},
+			c11Op{Op: "verify", Node: other, Cred: &c},
+			c11Op{Op: "record", Node: other, List: &l},
+			c11Op{Op: "verify", Node: other, Cred: &c, Down: []int{l.Node}},
+			c11Op{Op: "tick", Secs: 1860},
+			c11Op{Op: "verify", Node: other, Cred: &c, Down: []int{l.Node}},
+			c11Op{Op: "verify", Node: other, Cred: &c})
+		return c11Op{Op: "verify", Node: other, Cred: &c}
 	case k < 75 && len(g.entries) > 0:
 		// hostile sequence: the key store fails while a revocation is being signed into the list; whatever Revoke answers,
 		// the lists served afterwards, local verification and a repeated Revoke must agree with that answer
